@@ -675,8 +675,7 @@ theorem levels_uniform2 (left right : ℕ → K) (o dx : K) (hdx : dx ≠ 0)
     (hl0 : left 0 = o * dx) (hl1 : left 1 = (o + 1) * dx)
     (hr0 : right 0 = (1 - o) * dx) (hr1 : right 1 = (2 - o) * dx) :
     levels left right 2 = [(1 - o) * (1 - o) / 2, (1 + 2 * o - 2 * o * o) / 2, o * o / 2] := by
-  simp only [levels, innerLoop, Nat.reduceAdd, Nat.reduceSub, Nat.sub_zero, Nat.sub_self, zero_add,
-    hl0, hl1, hr0, hr1]
+  simp only [levels, innerLoop, Nat.sub_zero, Nat.sub_self, zero_add, hl0, hl1, hr0, hr1]
   have d1 : (1 - o) * dx + o * dx = dx := by ring
   have d2a : (1 - o) * dx + (o + 1) * dx = 2 * dx := by ring
   have d2b : (2 - o) * dx + o * dx = 2 * dx := by ring
